@@ -239,35 +239,28 @@ def destroyFwd (b : Nat) : (count first : Nat) → M Unit
   | k + 1, f => do dtorCell b f; destroyFwd b k (f + 1)
 
 /-- `alloc_uninitialized_{copy,move,fill,value_construct,default_construct}_n(alloc, …, count, p)` adl.hpp:199-465:
-    construct cells `cur, cur+1, …` in order; if a construction throws, destroy what was built and rethrow -/
-def constructN (c : Cfg) (b first : Nat) : (count cur : Nat) → M Unit
+    construct cells `cur, cur+1, …` in order; if a construction throws, destroy `[first cur, cur)` and rethrow.
+    For the flat algorithms `first = 0` (everything built so far).  The nested `uninitialized_copy(In, In, array_iterator<T, N>)`
+    for N > 1 (array_ref.hpp:3770-3780) runs one flat copy per innermost row and has no handler of its own: only the
+    row in which the throw happens is rolled back, `first cur = cur - cur % rowLen`. -/
+def constructN (c : Cfg) (b : Nat) (first : Nat → Nat) : (count cur : Nat) → M Unit
   | 0, _ => pure ()
   | k + 1, cur => fun s =>
     match ctorCell c b cur s with
     | .ok _ s1 => constructN c b first k (cur + 1) s1
-    | .threw s1 => (do destroyFwd b (cur - first) first; rethrow) s1
+    | .threw s1 => (do destroyFwd b (cur - first cur) (first cur); rethrow) s1
     | .term s1 => .term s1
     | .ub s1 => .ub s1
 
+/-- start of the range rolled back when construction number `cur` throws (`rowLen = 0`: flat algorithm) -/
+def rowStart (rowLen cur : Nat) : Nat := if rowLen = 0 then 0 else cur - cur % rowLen
+
 /-- the uninitialized algorithms applied to a possibly null destination (`count = 0` ⇒ no access) -/
-def constructAll (c : Cfg) (base : Option Nat) (n : Nat) : M Unit :=
+def constructAll (c : Cfg) (base : Option Nat) (n : Nat) (rowLen : Nat := 0) : M Unit :=
   if n = 0 then pure () else
   match base with
   | none => ub
-  | some b => constructN c b 0 n 0
-
-/-- `uninitialized_copy(In first, In last, array_iterator<T, N> dest)` for N > 1, array_ref.hpp:3770-3780: one
-    `uninitialized_copy` per leading index, recursively; only the innermost (last-dimension) copy rolls back, and only its
-    own row — rows completed before the throw stay constructed -/
-def constructRowsN (c : Cfg) (b len : Nat) : (rows start : Nat) → M Unit
-  | 0, _ => pure ()
-  | r + 1, start => do constructN c b start len start; constructRowsN c b len r (start + len)
-
-def constructRows (c : Cfg) (base : Option Nat) (n len : Nat) : M Unit :=
-  if n = 0 then pure () else
-  match base with
-  | none => ub
-  | some b => constructRowsN c b len (n / len) 0
+  | some b => constructN c b (rowStart rowLen) n 0
 
 /-- element-wise assignment to the listed cells, in order (`adl_copy_n`, `adl_move`, sub-array `operator=`): no rollback -/
 def assignCells (c : Cfg) (b : Nat) : List Nat → M Unit
@@ -338,7 +331,7 @@ def emptyArr (c : Cfg) (a : AllocId) : Arr := ⟨a, none, emptyExts c.dim, 0⟩
 def build (c : Cfg) (a : AllocId) (n : Nat) (construct : Bool) (rowLen : Nat := 0) : M (Option Nat) := do
   let p ← allocate a n
   -- fx6 also adds the missing rollback of completed rows to the nested `uninitialized_copy` (array_ref.hpp:3770-3780)
-  let body := if rowLen = 0 || c.fx6 then constructAll c p n else constructRows c p n rowLen
+  let body := constructAll c p n (if c.fx6 then 0 else rowLen)
   if construct then
     if c.fx6 then tryCatch body (do deallocate c a p n; rethrow)
     else body
